@@ -1204,6 +1204,15 @@ def discharge(ix, s):
                     d = ix.resolve(x)
                     if d[0] == "const" and d[1] != 0:
                         return "D2 non-zero constant divisor"
+                    # usize::from(K) / u32::from(K) of a non-zero constant (lossless widening keeps it non-zero)
+                    dd = d
+                    for _hop in range(3):
+                        if dd[0] == "call" and len(dd[1]["args"]) == 1 and re.search(r"impl std::convert::From<(u8|u16|u32|u64|usize)> for (u16|u32|u64|u128|usize|i32|i64|i128)>::from$", ix.callee(dd[1])):
+                            dd = ix.resolve(dd[1]["args"][0])
+                        else:
+                            break
+                    if dd is not d and dd[0] == "const" and dd[1] != 0:
+                        return "D2 non-zero constant divisor (widened with From)"
                     if d[0] == "cast" and d[3][0] == "call":
                         d = d[3]  # value-preserving for the small sizes accepted below
                     if d[0] == "call" and ix.callee(d[1]).endswith("mem::size_of"):
